@@ -30,6 +30,30 @@ def _akey(a) -> str:
   return repr(a)
 
 
+_SQRT_ARG: dict = {}    # SQRT atom -> its (polynomial) argument, recorded by RF.fn
+
+
+def _merge_roots(e: dict) -> dict:
+  """sqrt(a) * sqrt(b) = sqrt(a * b) for the non-negative arguments pos_sqrt admits: several
+  first-power SQRT atoms of one monomial are folded into one, so a root written as a product of
+  roots has the same normal form as the root of the product."""
+  roots = [a for a, k in e.items() if k == 1 and a[0] == 'fn' and a[1] == 'SQRT' and a in _SQRT_ARG]
+  if len(roots) < 2:
+    return e
+  prod = RF.const(1)
+  for a in roots:
+    prod = prod * _SQRT_ARG[a]
+  merged = RF.fn('SQRT', [prod])
+  if len(merged.n.t) != 1:
+    return e
+  (mon, c), = merged.n.t.items()
+  if c != 1 or len(mon) != 1:
+    return e
+  out = {a: k for a, k in e.items() if a not in roots}
+  out[mon[0][0]] = out.get(mon[0][0], 0) + 1
+  return out
+
+
 class Poly:
   __slots__ = ('t',)
 
@@ -63,6 +87,7 @@ class Poly:
         e: dict = {}
         for a, k in m1 + m2:
           e[a] = e.get(a, 0) + k
+        e = _merge_roots(e)
         m = tuple(sorted(((a, k) for a, k in e.items() if k), key=lambda x: _akey(x[0])))
         d[m] = d.get(m, 0) + c1 * c2
     return Poly(d)
@@ -146,7 +171,10 @@ class RF:
     keys = [canon(a) for a in args]
     if commutative:
       keys = sorted(keys, key=repr)
-    return RF(Poly.atom(('fn', name, tuple(keys))))
+    atom = ('fn', name, tuple(keys))
+    if name == 'SQRT' and len(args) == 1 and isinstance(args[0], RF) and args[0].d.is_const():
+      _SQRT_ARG[atom] = args[0]
+    return RF(Poly.atom(atom))
 
   def __add__(self, o):
     return RF(self.n * o.d + o.n * self.d, self.d * o.d)
@@ -241,6 +269,7 @@ FN_ALIASES = {
     'np.sum': ('SUM', False), 'sum': ('SUM', False), 'len': ('LEN', False),
 }
 IDENTITY_METHODS = {'astype', 'item', 'copy'}
+FLOAT_DTYPES = {'float', 'np.float64', 'np.double', 'types.DefaultDType', 'agg_types.DefaultDType', 'DefaultDType'}
 
 
 class SymEval:
@@ -374,6 +403,10 @@ class SymEval:
       return RF.fn('LIT', [repr(str(e.args[0].value).lower())])
     if isinstance(e.func, ast.Attribute) and e.func.attr in IDENTITY_METHODS:
       return self.expr(e.func.value, env, depth)
+    # a value-preserving conversion: np.asarray(x) / np.asarray(x, dtype=<floating type>)
+    if fn in ('np.asarray', 'np.asanyarray', 'np.array', 'np.float64') and len(e.args) == 1 and all(
+        k.arg == 'dtype' and unparse(k.value) in FLOAT_DTYPES for k in e.keywords):
+      return args[0]
     # same-module helper functions are inlined
     target = None
     if isinstance(e.func, ast.Name) and e.func.id in self.module.functions:
